@@ -25,9 +25,9 @@ package httpsender
 //@   property C10
 //@   requires hsOK(s) && ctx != nil
 //@   ghost idFailed := false
-//@   at call addIDToAddrs#1: after ghost idFailed := result != nil
-//@   at call MarshalCBOR#1: assert msg.ExtraData == ite(len(s.extraData) != 0, s.extraData, old(msg.ExtraData)) && payload(arg1) == buf
-//@   at call sendData#1: assert arg2 == buf && arg3 == false
+//@   at call addIDToAddrs: after ghost idFailed := result != nil
+//@   at call MarshalCBOR: assert msg.ExtraData == ite(len(s.extraData) != 0, s.extraData, old(msg.ExtraData)) && payload(arg1) == buf
+//@   at call sendData: assert arg2 == buf && arg3 == false
 //@   ensures-local idFailed ==> result != nil && count("call:MarshalCBOR") == 0 && count("call:sendData") == 0
 //@   ensures-local !idFailed ==> count("call:MarshalCBOR") == 1 && count("call:sendData") <= 1 && before("call:MarshalCBOR", "call:sendData")
 //@   ensures-local result == nil ==> count("call:sendData") == 1
@@ -36,10 +36,10 @@ package httpsender
 //@   property C10
 //@   requires hsOK(s) && ctx != nil
 //@   ghost idFailed := false
-//@   at call addIDToAddrs#1: after ghost idFailed := result != nil
-//@   at call NewEncoder#1: assert payload(arg0) == buf
-//@   at call Encode#1: assert msg.ExtraData == ite(len(s.extraData) != 0, s.extraData, old(msg.ExtraData))
-//@   at call sendData#1: assert arg2 == buf && arg3 == true
+//@   at call addIDToAddrs: after ghost idFailed := result != nil
+//@   at call NewEncoder: assert payload(arg0) == buf
+//@   at call Encode: assert msg.ExtraData == ite(len(s.extraData) != 0, s.extraData, old(msg.ExtraData))
+//@   at call sendData: assert arg2 == buf && arg3 == true
 //@   ensures-local idFailed ==> result != nil && count("call:Encode") == 0 && count("call:sendData") == 0
 //@   ensures-local !idFailed ==> count("call:Encode") == 1 && count("call:sendData") <= 1 && before("call:Encode", "call:sendData")
 //@   ensures-local result == nil ==> count("call:sendData") == 1
@@ -53,11 +53,11 @@ package httpsender
 //@   modifies msg.Addrs
 //@   ghost got := zero("peer.AddrInfo").Addrs
 //@   ghost p2p := zero("peer.AddrInfo").Addrs
-//@   at call GetAddrs#1: assert arg0 == msg
-//@   at call GetAddrs#1: after ghost got := result0
-//@   at call AddrInfoToP2pAddrs#1: assert arg0.ID == s.peerID && arg0.Addrs == got
-//@   at call AddrInfoToP2pAddrs#1: after ghost p2p := result0
-//@   at call SetAddrs#1: assert arg0 == msg && arg1 == p2p
+//@   at call GetAddrs: assert arg0 == msg
+//@   at call GetAddrs: after ghost got := result0
+//@   at call AddrInfoToP2pAddrs: assert arg0.ID == s.peerID && arg0.Addrs == got
+//@   at call AddrInfoToP2pAddrs: after ghost p2p := result0
+//@   at call SetAddrs: assert arg0 == msg && arg1 == p2p
 //@   ensures-local old(len(msg.Addrs)) == 0 ==> result == nil && count("call:SetAddrs") == 0
 //@   ensures-local old(len(msg.Addrs)) != 0 && result == nil ==> count("call:GetAddrs") == 1 && count("call:AddrInfoToP2pAddrs") == 1 && count("call:SetAddrs") == 1
 //@   ensures-local result != nil ==> count("call:SetAddrs") == 0
@@ -67,8 +67,8 @@ package httpsender
 //@ func (*Sender).sendAnnounce
 //@   property C10
 //@   requires s != nil && s.client != nil && ctx != nil
-//@   at call NewRequestWithContext#1: assert str(arg1) == str("PUT") && str(arg2) == str(announceURL) && payload(arg3) == buf
-//@   at call Do#1: assert arg1 == req
+//@   at call NewRequestWithContext: assert str(arg1) == str("PUT") && str(arg2) == str(announceURL) && payload(arg3) == buf
+//@   at call Do: assert arg1 == req
 //@   ensures-local count("call:Do") <= 1
 //@   ensures-local result == nil ==> count("call:Do") == 1 && (resp.StatusCode == 200 || resp.StatusCode == 204)
 
@@ -78,7 +78,7 @@ package httpsender
 //@   property C10
 //@   requires hsOK(s) && ctx != nil && buf != nil
 //@   mayblock
-//@   at call sendAnnounce#1: assert str(arg2) == str(s.announceURLs[0]) && arg3 == buf && arg4 == js
+//@   at call sendAnnounce: assert str(arg2) == str(s.announceURLs[0]) && arg3 == buf && arg4 == js
 //@   loop 1: exhaustive
 //@   loop 1: iteration ensures itercount("go:sendData$1") == 1
 //@   loop 2: exhaustive
@@ -91,8 +91,8 @@ package httpsender
 //@   property C10
 //@   requires s != nil && s.client != nil && ctx != nil && errChan != nil && !closed(errChan)
 //@   mayblock
-//@   at call NewBuffer#1: assert arg0 == data
+//@   at call NewBuffer: assert arg0 == data
 //@   ghost own := zero("*bytes.Buffer")
-//@   at call NewBuffer#1: after ghost own := result
-//@   at call sendAnnounce#1: assert str(arg2) == str(announceURL) && arg4 == js && arg3 == own && isfresh(arg3)
+//@   at call NewBuffer: after ghost own := result
+//@   at call sendAnnounce: assert str(arg2) == str(announceURL) && arg4 == js && arg3 == own && isfresh(arg3)
 //@   ensures-local count("send:errChan") == 1 && count("call:sendAnnounce") == 1 && before("call:sendAnnounce", "send:errChan")
